@@ -10,17 +10,20 @@ run_part(ck, tier) adds to the vlib.Check of C12:
 import concurrent.futures
 import json
 import os
+import threading
 import vlib
 
 TAG = "x12"
 CFG = {
     "quick":    dict(mc=["MC_Connection_q.cfg", "MC_Connection_q2.cfg", "MC_Connection_q3.cfg"],
-                     gen=["Gen_Connection.cfg", "Gen_Connection_b.cfg"], all_variants=False,
+                     gen=[("Gen_Connection.cfg", False), ("Gen_Connection_b.cfg", False)],
                      nhist=14, steps=70, nlong=1, longsteps=300, wrap=140, ncycle=6, cycles=14, resample=12),
-    "thorough": dict(mc=["MC_Connection.cfg", "MC_Connection_t.cfg"], gen=["Gen_Connection_t.cfg"], all_variants=True,
+    "thorough": dict(mc=["MC_Connection_t.cfg", "MC_Connection.cfg", "MC_Connection_t2.cfg", "MC_Connection_t3.cfg"],
+                     gen=[("Gen_Connection_t.cfg", True), ("Gen_Connection_t2.cfg", False), ("Gen_Connection_bt.cfg", False)],
                      nhist=120, steps=120, nlong=6, longsteps=700, wrap=300, ncycle=40, cycles=30, resample=40),
 }
 ENV = {"ASAN_OPTIONS": vlib.ASAN_ENV + ":symbolize=0"}
+VLOCK = threading.Lock()       # vlib.Check.violation numbers its files: one caller at a time
 CHUNK = 3000
 MAX_FAULTS = 60
 S_VARIANTS = [("conn", "open"), ("remote", "assign"), ("conn", "assign"), ("remote", "open"), ("conn", "manual")]
@@ -356,7 +359,7 @@ def nontrivial(recs):
     return calls > 0
 
 
-def validate(ck, events, what, behs, rounds=4):
+def validate(ck, events, what, behs, rounds=5):
     """TLC decides whether the recorded executions are behaviours of Connection.  A rejected execution is reported (the
     rejection is confirmed by a second run), taken out, and the rest is validated again so that one failure does not
     hide another.  Returns (number of executions accepted, events matched, transitions)."""
@@ -370,11 +373,6 @@ def validate(ck, events, what, behs, rounds=4):
         gen += tres.generated
         if ok:
             break
-        ok2, matched2, tres2 = vlib.validate_trace("Trace_Connection", events, tag=tag)
-        if ok2 or matched2 != matched:
-            if ok2:
-                break
-            continue
         ev = events[matched] if matched < len(events) else None
         if ev is None:
             ck.violation("x12:trace:short", {"binding": "B(trace validation)", "x12": True, "matched_prefix": matched})
@@ -385,10 +383,18 @@ def validate(ck, events, what, behs, rounds=4):
             sig = "trace:" + signature({"step": prev, "why": ev["a"] if ev["a"] != "Missing" else "Crash"}, beh)
         else:
             sig = "trace:" + signature({"step": ev, "why": "rejected"}, beh)
-        ck.violation(sig, {"binding": "B(trace validation)", "x12": True, "matched_prefix": matched,
-                           "rejected_event": ev, "previous_events": events[max(matched - 3, 0):matched],
-                           "behaviour": beh if len(beh) < 200 else beh[:ev.get("i", 0) + 1],
-                           "tlc": (tres2.violation or "")})
+        tres2 = tres
+        if not ck.signature_known(sig):            # a new rejection is confirmed by a second run before it is reported
+            ok2, matched2, tres2 = vlib.validate_trace("Trace_Connection", events, tag=tag)
+            if ok2:
+                break
+            if matched2 != matched:
+                continue
+        with VLOCK:
+            ck.violation(sig, {"binding": "B(trace validation)", "x12": True, "matched_prefix": matched,
+                               "rejected_event": ev, "previous_events": events[max(matched - 3, 0):matched],
+                               "behaviour": beh if len(beh) < 200 else beh[:ev.get("i", 0) + 1],
+                               "tlc": (tres2.violation or "")})
         rejected += 1
         events = [e for e in events if e["b"] != ev["b"]]
         if not events:
@@ -402,27 +408,30 @@ def run_part(ck, tier):
     notes = ck.notes.setdefault("x12_conn", {})
 
     # 1. exhaustive model checks and behaviour export run side by side with everything else
-    pool = concurrent.futures.ThreadPoolExecutor(max_workers=8)
+    pool = concurrent.futures.ThreadPoolExecutor(max_workers=12)
     fmc = [pool.submit(vlib.tlc, "MC_Connection", c, workers=max(vlib.NCPU // 4, 2), tag="MC_Connection_" + c)
            for c in cfg["mc"]]
-    fgen = [pool.submit(vlib.tlc, "Gen_Connection", g, workers=3, tag="Gen_Connection_" + g) for g in cfg["gen"]]
+    fgen = [pool.submit(vlib.tlc, "Gen_Connection", g, workers=3, tag="Gen_Connection_" + g) for g, _ in cfg["gen"]]
 
     # 2. binding B: seeded histories recorded from the real code, validated by TLC
     hist = gen_histories(ck, cfg)
     hrecs, _ = vlib.run_driver(exe, vlib.to_script(hist), env=ENV)
     ev_h = drop_skipped(vlib.merge_trace(hist, hrecs))
-    fval = pool.submit(validate, ck, ev_h, "seeded", hist)
+    nfam = 3
+    fval = [pool.submit(validate, ck, [e for e in ev_h if e["b"] % nfam == k], "seeded%d" % k, hist) for k in range(nfam)]
 
     # 3. binding A: every exported behaviour replayed
     base = []
-    for g, f in zip(cfg["gen"], fgen):
+    behs = []
+    for (g, allv), f in zip(cfg["gen"], fgen):
         gen = f.result()
         if gen.error or gen.violation:
             raise vlib.MachineryError("behaviour export %s failed: %s %s" % (g, gen.error, gen.violation))
-        base += vlib.parse_behaviours(gen.out)
-    behs = []
-    for i, b in enumerate(base):
-        behs += variants(b, cfg["all_variants"], i)
+        part = vlib.parse_behaviours(gen.out)
+        gen.out = ""
+        base += part
+        for i, b in enumerate(part):
+            behs += variants(b, allv, i)
     recs, done = run_chunks(exe, behs)
     mms = vlib.compare(behs[:done], recs)
     per_sig = {}
@@ -430,8 +439,9 @@ def run_part(ck, tier):
         sig = signature(mm, behs[mm["b"]])
         per_sig[sig] = per_sig.get(sig, 0) + 1
         if per_sig[sig] <= 2:
-            ck.violation(sig, {"binding": "A(replay)", "x12": True, "behaviour": behs[mm["b"]], "step": mm["i"],
-                               "why": mm["why"], "record": mm["rec"]})
+            with VLOCK:
+                ck.violation(sig, {"binding": "A(replay)", "x12": True, "behaviour": behs[mm["b"]], "step": mm["i"],
+                                   "why": mm["why"], "record": mm["rec"]})
     by = vlib.group_records(recs)
     nt = set()
     for b, beh in enumerate(behs[:done]):
@@ -456,7 +466,10 @@ def run_part(ck, tier):
             srecs.append(dict(r, b=j))
     ev_s = drop_skipped(vlib.merge_trace(sample, srecs))
     rej_s, lost_s, gen_s = validate(ck, ev_s, "sample", sample, rounds=2)
-    rej_h, lost_h, gen_h = fval.result()
+    rej_h = lost_h = gen_h = 0
+    for f in fval:
+        r_, l_, g_ = f.result()
+        rej_h, lost_h, gen_h = rej_h + r_, lost_h + l_, gen_h + g_
     ck.cov["transitions"] += gen_s + gen_h
     hby = vlib.group_records(hrecs)
     ntb = 0
